@@ -3,12 +3,21 @@ package main
 func init() {
 	props["C08"] = &Prop{
 		ID: "C08", PkgDir: "interp", PkgPath: interpPath, PkgName: "interp",
-		Harness:    []string{"interp_common.go", "C08.go"},
+		Harness:    []string{"interp_common.go", "C09_block.go", "C08.go"},
 		Instrument: runidInstr, ReplayRace: true,
 		Obligs: func(tier string) []Oblig {
-			return []Oblig{{Harness: "vh_C08_select", Unroll: 8}}
+			r := []Oblig{{Harness: "vh_C08_select", Unroll: 8}}
+			for op := 0; op <= 5; op++ {
+				for cm := 0; cm <= 1; cm++ {
+					r = append(r, Oblig{Harness: "vh_C08_chanop", Unroll: 8, Globals: map[string]int{"vhBlockOp": op, "vhCancelMode": cm}})
+				}
+			}
+			for v := 0; v <= 1; v++ {
+				r = append(r, Oblig{Harness: "vh_C08_call", Unroll: 8, Globals: map[string]int{"vhVariadic": v}})
+			}
+			return r
 		},
-		Bounds:      []string{"2 activations of the same select statement (2 receive clauses), B runs at A's preemption point before reflect.Select"},
+		Bounds:      []string{"2 activations of the same statement: select (2 receive clauses), recv (2 forms), recv2, send, range over channel - with and without a context - and an interpreted call (plain and variadic callee); B runs at A's preemption point before reflect.Select where there is one"},
 		Assumptions: []string{"reflect.Select replaced by a model that chooses case 0", "channels are opaque values"},
 		Outside:     []string{"whole concurrent programs, Go scheduler, N interpreters, host goroutines, races on frame data shared through closures, symbol tables"},
 	}
